@@ -1,7 +1,7 @@
 (* Properties_C11.v — C11 "regular-expression rewrites accept exactly the same language".
    Only statements closed by [exact]; see Proofs_Regex*.v.  Naming: _partial = holds under the stated guard,
    _refuted = the unguarded statement is false, with a concrete witness. *)
-From GC Require Import Base Model_Regex Model_RegexSimplify Proofs_Regex Proofs_RegexRules Proofs_RegexSimplify Proofs_RegexWalk Proofs_RegexWalkS Proofs_RegexLit Model_RegexText Proofs_RegexText.
+From GC Require Import Base Model_Regex Model_RegexSimplify Proofs_Regex Proofs_RegexRules Proofs_RegexSimplify Proofs_RegexWalk Proofs_RegexWalkS Proofs_RegexLit Proofs_RegexPrint Model_RegexText Proofs_RegexText.
 
 (* observational equivalence gives the same FindStringSubmatchIndex vector on every subject *)
 Theorem C11_equiv_same_matches : forall a b n, req a b -> forall s, go_vec n (find a s) = go_vec n (find b s).
@@ -368,3 +368,23 @@ Theorem C11_rule_factor_suffix_shorter_first_literal_partial : forall x h,
   firstn (length x) (h :: x) <> x -> req (RAlt (lit x) (lit (h :: x))) (RCat (RQuest true (lit [h])) (lit x)).
 Proof. exact suffix_shorter_first_sound. Qed.
 Print Assumptions C11_rule_factor_suffix_shorter_first_literal_partial.
+
+(* ---------- the reported text is the text of the tree the theorems speak about ---------- *)
+
+(* for EVERY tree: what the walker writes to its buffer (and its score) is the print of the tree version *)
+Theorem C11_walk_text_is_print_of_tree : forall e,
+  pr_list (fst (walk_a true e)) = fst (walk true e) /\ snd (walk_a true e) = snd (walk true e).
+Proof. exact walk_print. Qed.
+Print Assumptions C11_walk_text_is_print_of_tree.
+
+(* the rewrite reported by the two-pass driver is the text of final_tree (the tree of C11_simplify_final_sound_partial) *)
+Theorem C11_final_text_is_print_of_final_tree : forall pat t1 t2f final,
+  simplify2 pat t1 t2f = Some final -> final = print (final_tree t1 (t2f (simplify1 t1))).
+Proof. exact final_text. Qed.
+Print Assumptions C11_final_text_is_print_of_final_tree.
+
+(* what is emitted for an operand that elaborates is never a flag-only group (so no guard about it is needed) *)
+Theorem C11_emitted_operand_is_operand : forall x st r, den x st = Some r -> op_eqb (sx_op x) OpFlagOnlyGroup = false ->
+  op_eqb (sx_op (seq_node (fst (walk_a true x)))) OpFlagOnlyGroup = false.
+Proof. exact emits_operand_holds. Qed.
+Print Assumptions C11_emitted_operand_is_operand.
